@@ -63,7 +63,7 @@ pub fn decode(d: u32, nsets: usize, fallible: bool) -> (bool, Option<usize>, u32
     let tgt = if nsets == 0 {
         None
     } else {
-        Some(((d / 8) as usize) % nsets)
+        Some((((d / 8) % 8) as usize) % nsets)
     };
     if !fallible {
         k = match k {
@@ -81,7 +81,9 @@ pub fn decode(d: u32, nsets: usize, fallible: bool) -> (bool, Option<usize>, u32
             k => k,
         };
     }
-    match k {
+    // bit 6: call reset_match() first, whatever the kind (e.g. reset and return in one invocation)
+    let extra_reset = (d / 64) % 2 == 1;
+    let (reset, tgt, res) = match k {
         0 => (false, None, 0),
         1 => (true, None, 0),
         2 => (false, None, 1),
@@ -90,7 +92,8 @@ pub fn decode(d: u32, nsets: usize, fallible: bool) -> (bool, Option<usize>, u32
         5 => (false, tgt, 1),
         6 => (false, None, 2),
         _ => (false, tgt, 2),
-    }
+    };
+    (reset || extra_reset, tgt, res)
 }
 
 pub trait ErrCode {
